@@ -578,6 +578,22 @@ fn boundary_shift_pair() -> BoxedStrategy<(TKey, TKey)> {
             (TKey::EncodingFile { ekey: k, page: Some(p), parsed }, TKey::EncodingFile { ekey: k, page: None, parsed })
         }),
         (any::<[u8; 16]>(), 0u32..20).prop_map(|(k, b)| { (TKey::Blte { ekey: k, block: Some(b) }, TKey::BlteBlock { ckey: k, block: b, decompressed: false }) }),
+        // numbers with many digits that share their low or their high digits: a formatter with a
+        // digit buffer one too short, a field printed in a narrower type
+        (any::<[u8; 16]>(), 0u32..1_000_000_000, 1u32..=4, 0u32..=3, 0u8..5).prop_map(|(k, low, hi_a, hi_b, which)| {
+            let a = hi_a.saturating_mul(1_000_000_000).saturating_add(low % 294_967_296);
+            let b = if hi_b == hi_a { low % 294_967_296 } else { hi_b.saturating_mul(1_000_000_000).saturating_add(low % 294_967_296) };
+            match which {
+                0 => (TKey::Blte { ekey: k, block: Some(a) }, TKey::Blte { ekey: k, block: Some(b) }),
+                1 => (TKey::BlteBlock { ckey: k, block: a, decompressed: false }, TKey::BlteBlock { ckey: k, block: b, decompressed: false }),
+                2 => (TKey::EncodingFile { ekey: k, page: Some(a), parsed: true }, TKey::EncodingFile { ekey: k, page: Some(b), parsed: true }),
+                3 => (
+                    TKey::ArchiveRange { archive_id: "data.001".into(), start: u64::from(a) << 32 | 7, len: 9 },
+                    TKey::ArchiveRange { archive_id: "data.001".into(), start: u64::from(b) << 32 | 7, len: 9 },
+                ),
+                _ => (TKey::ArchiveRange { archive_id: "data.001".into(), start: 5, len: a }, TKey::ArchiveRange { archive_id: "data.001".into(), start: 5, len: b }),
+            }
+        }),
     ]
     .boxed()
 }
